@@ -40,6 +40,12 @@ type sortedSetUnderTest struct {
 	ascending  func() []int
 	heaviest   func() int
 	lightest   func() int
+	// subscriptions used by the re-entrant family (reent.go): the callback gets the new value / nothing
+	onHeaviest func(cb func(newHeaviest int))
+	onLightest func(cb func(newLightest int))
+	onSet      func(cb func())
+	onWeight   func(e int, cb func())
+	has        func(e int) bool
 }
 
 func newSSUT[E ~int](tb bool) *sortedSetUnderTest {
@@ -86,6 +92,11 @@ func newSSUT[E ~int](tb bool) *sortedSetUnderTest {
 		ascending:  func() []int { return back(s.Ascending()) },
 		heaviest:   func() int { return int(s.HeaviestElement().Get()) },
 		lightest:   func() int { return int(s.LightestElement().Get()) },
+		onHeaviest: func(cb func(int)) { s.HeaviestElement().OnUpdate(func(_, n E) { cb(int(n)) }) },
+		onLightest: func(cb func(int)) { s.LightestElement().OnUpdate(func(_, n E) { cb(int(n)) }) },
+		onSet:      func(cb func()) { s.OnUpdate(func(ds.SetMutations[E]) { cb() }) },
+		onWeight:   func(e int, cb func()) { weights[e].OnUpdate(func(_, _ int) { cb() }) },
+		has:        func(e int) bool { return s.Has(E(e)) },
 	}
 }
 
